@@ -156,3 +156,55 @@ def exponent_markers(prog, R, rule):
             R.ob(rule, f"{b.npath.split('::')[-1]}:{o}", ok, at, "exponent accepted after exactly 'e' and 'E'" if ok else
                  f"this exponent arm accepts {sorted(chr(v[1]) if isinstance(v, tuple) and v[0] == 'eq' else str(v) for v in vals)} while its siblings accept 'e' and 'E': the same literal is a float in one position and an integer with a suffix in another")
     R.floor("exponent decision points in the lexer", n, 3)
+
+
+def string_scanner_table(prog, fn, quote, other_quote):
+    """Decision table of one iteration of a quoted-string scanner: for the consumed character c and the next
+    character x: does the scanner return (terminated) and does it consume x as an escaped character.  Characters are
+    abstracted to classes relative to the scanner's own quote: Q (own quote), O (the other quote), backslash,
+    newline, underscore, '0', 'a'."""
+    from sym import deep_strip, show
+    b = prog.body(fn)
+    if b is None:
+        return None
+    cls = {"Q": quote, "O": other_quote, "\\": 92, "n": 10, "_": 95, "0": 48, "a": 97}
+    bumps = {bi for bi, t in b.calls() if (b.callee_of(t) or "").endswith("Cursor::bump")}
+    out = {}
+    for cn, c in cls.items():
+        for xn, x in cls.items():
+            def model(se, st, t, cal, args, site, c=c, x=x):
+                if cal.endswith("Cursor::bump"):
+                    nb = sum(1 for nm, a, bb in st.calls if nm.endswith("Cursor::bump"))
+                    if nb == 0:
+                        return ("adt", "std::option::Option::Some", (("c", "char", c),))
+                    if nb == 1 and site[-1][1] == 0:
+                        return ("adt", "std::option::Option::Some", (("c", "char", x),))      # a second bump in the same iteration consumes x
+                    return ("adt", "std::option::Option::None", ())
+                if cal.endswith("Cursor::first"):
+                    return ("c", "char", x)
+                return None
+            res = set()
+            for p in SymExec(prog, b, max_visits=2, max_paths=400, call_model=model).paths():
+                if "__diverged__" in p.env:
+                    continue
+                nb = sum(1 for nm, a, bb in p.calls if nm.endswith("Cursor::bump"))
+                r = deep_strip(p.env.get(0))
+                term = show(r[1][0]) if isinstance(r, tuple) and r[0] == "tuple" else "?"
+                res.add((term, nb))
+            out[(cn, xn)] = tuple(sorted(res))
+    return out
+
+
+def string_scanners_agree(prog, R, rule):
+    d = string_scanner_table(prog, "oq3_lexer::Cursor::double_quoted_string", 34, 39)
+    s_ = string_scanner_table(prog, "oq3_lexer::Cursor::single_quoted_string", 39, 34)
+    b = prog.body("oq3_lexer::Cursor::single_quoted_string")
+    if d is None or s_ is None:
+        R.ob("ANCHOR", "string scanners", False)
+        return
+    diff = sorted(k for k in d if d[k] != s_.get(k))
+    # sanity of the table itself: the own quote terminates, backslash + (backslash | own quote) consumes two
+    sane = all(any(t == "true" for t, nb in tab[("Q", x)]) for tab in (d, s_) for x in ("a", "Q")) and all(tab[("\\", "Q")] != tab[("\\", "a")] for tab in (d, s_))
+    R.ob(rule, "single_quoted_string and double_quoted_string agree up to the quote character", not diff and sane, b.at if b else "",
+         f"{len(d)} (consumed, next) character-class pairs give the same (terminated, characters consumed) outcome in both scanners" if not diff and sane else
+         f"the string scanners disagree for (consumed, next) classes {diff[:4]} (Q = own quote, O = other quote): double {[d[k] for k in diff[:2]]} vs single {[s_.get(k) for k in diff[:2]]}; sane={sane}")
